@@ -530,6 +530,8 @@ where
 
         let last_observations = self.observations.clone();
         let last_metric = self.metric.clone();
+        let last_merge_history = self.merge_history.clone();
+        let mut history_merged = false;
 
         for cls in classes {
             let dest = self.observations.get_mut(cls);
@@ -552,17 +554,17 @@ where
 
                 _ => None,
             };
-            let merge_history = if merge_history {
-                self.merge_history
-                    .iter()
-                    .chain(other.merge_history.iter())
-                    .cloned()
-                    .collect::<Vec<_>>()
-            } else {
-                take(&mut self.merge_history)
-            };
-
             if let Some(prev_length) = prev_length {
+                let merge_history = if merge_history && !history_merged {
+                    self.merge_history
+                        .iter()
+                        .chain(other.merge_history.iter())
+                        .cloned()
+                        .collect::<Vec<_>>()
+                } else {
+                    take(&mut self.merge_history)
+                };
+
                 let res = self.metric.optimize(
                     *cls,
                     &merge_history,
@@ -576,10 +578,12 @@ where
                     self.attributes = last_attributes;
                     self.observations = last_observations;
                     self.metric = last_metric;
+                    self.merge_history = last_merge_history;
                     res?;
                     unreachable!();
                 }
                 self.merge_history = merge_history;
+                history_merged = true;
             }
         }
 
